@@ -2,9 +2,9 @@ package main
 
 func init() {
 	register(&propDef{
-		ID:    "C01",
-		Title: "Served answers are exactly what the data file declares",
-		Run:   runC01,
+		ID:          "C01",
+		Title:       "Served answers are exactly what the data file declares",
+		Run:         runC01,
 		Explanation: "Structural necessary conditions of answer correctness, decided on SSA/AST: (guards) the zone walk of both reader implementations has loop-variant exit guards of every required kind with the right polarity; (wildflag) exact rows first, wildcard rows only at parents; (typefilter) both readers select rows by the same type comparisons including CNAME; (rowhead) the row header written by the compiler and the one parsed by the server agree in widths, markers and byte order; (keylayout) owner-key layout agreement between compiler and readers; (ttl) default TTL table; (decision-table) REFUSED / referral / NXDOMAIN / SOA / NS / glue are produced under exactly the conditions the property states. The relation data file → response for all files and queries is not decided.",
 	})
 }
@@ -17,4 +17,5 @@ func runC01(c *Ctx) {
 	c01KeyLayout(c, "C01.keylayout")
 	c01TTL(c, "C01.ttl")
 	c01DecisionTable(c, "C01.decision-table")
+	c01WildsafeSpan(c, "C01.wildsafe-span")
 }
